@@ -20,12 +20,14 @@ use iri_string::types::UriStr;
 use netconf::message::rpc::operation::{
     edit_config::{DefaultOperation, ErrorOption, TestOption},
     junos::{
-        load_configuration::{Config, Json, Merge, Override, Replace, Rescue, Set, Text, Update, Xml},
-        CloseConfiguration, CommitConfiguration, LoadConfiguration, LockConfiguration, OpenConfiguration,
-        UnlockConfiguration,
+        load_configuration::{
+            Config, Json, Merge, Override, Replace, Rescue, Set, Text, Update, Xml,
+        },
+        CloseConfiguration, CommitConfiguration, LoadConfiguration, LockConfiguration,
+        OpenConfiguration, UnlockConfiguration,
     },
-    Builder as _, CancelCommit, Commit, CopyConfig, Datastore, DeleteConfig, DiscardChanges, EditConfig, Filter,
-    Get, GetConfig, KillSession, Lock, Opaque, Token, Unlock, Validate,
+    Builder as _, CancelCommit, Commit, CopyConfig, Datastore, DeleteConfig, DiscardChanges,
+    EditConfig, Filter, Get, GetConfig, KillSession, Lock, Opaque, Token, Unlock, Validate,
 };
 use netconf::Error;
 
@@ -85,7 +87,10 @@ const NOISE: [&str; 11] = [
     " urn:ietf:params:netconf:capability:url:1.0?scheme=ftp&scheme=mailto\t",
 ];
 /// rejected by iri-string: the whole hello is rejected and no session exists
-const INVALID: [&str; 2] = ["not a uri", "urn:ietf:params:netconf:capability:xpath:1.0 x"];
+const INVALID: [&str; 2] = [
+    "not a uri",
+    "urn:ietf:params:netconf:capability:xpath:1.0 x",
+];
 
 const URLS: [&str; 8] = [
     "file:///var/tmp/c.xml",
@@ -113,7 +118,11 @@ impl CapTok {
     fn uri(&self) -> String {
         match self {
             CapTok::Known(i) => KNOWN[*i].to_string(),
-            CapTok::Url(q, piece) => format!("{}{}", KNOWN[URL_IDX], URL_QUERIES[*q].split('|').nth(*piece).unwrap_or("")),
+            CapTok::Url(q, piece) => format!(
+                "{}{}",
+                KNOWN[URL_IDX],
+                URL_QUERIES[*q].split('|').nth(*piece).unwrap_or("")
+            ),
             CapTok::Noise(i) => NOISE[*i].to_string(),
             CapTok::Invalid(i) => INVALID[*i].to_string(),
             CapTok::Raw(s) => s.clone(),
@@ -131,7 +140,11 @@ impl CapTok {
     fn parse(t: &str) -> Option<CapTok> {
         let (k, rest) = t.split_at(1);
         Some(match k {
-            "k" => CapTok::Known(rest.parse().ok().filter(|i| *i < KNOWN.len() && *i != URL_IDX)?),
+            "k" => CapTok::Known(
+                rest.parse()
+                    .ok()
+                    .filter(|i| *i < KNOWN.len() && *i != URL_IDX)?,
+            ),
             "u" => {
                 let (q, p) = rest.split_once('.')?;
                 let (q, p): (usize, usize) = (q.parse().ok()?, p.parse().ok()?);
@@ -150,14 +163,20 @@ impl CapTok {
     /// capability URIs; 8.8.3: the `scheme` argument is a comma-separated list) — independent of
     /// both the implementation's and the model's parse.
     fn advertised(&self) -> String {
-        const TOKS: [&str; 13] = ["b10", "b11", "wr", "cand", "cc10", "cc11", "roe", "v10", "v11", "st", "", "xp", "junos"];
+        const TOKS: [&str; 13] = [
+            "b10", "b11", "wr", "cand", "cc10", "cc11", "roe", "v10", "v11", "st", "", "xp",
+            "junos",
+        ];
         let uri = self.uri().trim().to_string();
         if let Some(i) = KNOWN.iter().position(|k| *k == uri) {
             if i != URL_IDX {
                 return TOKS[i].into();
             }
         }
-        if let Some(q) = uri.strip_prefix(KNOWN[URL_IDX]).and_then(|r| r.strip_prefix('?')) {
+        if let Some(q) = uri
+            .strip_prefix(KNOWN[URL_IDX])
+            .and_then(|r| r.strip_prefix('?'))
+        {
             if !q.contains('#') && UriStr::new(uri.as_str()).is_ok() {
                 let mut schemes = vec![];
                 for arg in q.split('&') {
@@ -165,7 +184,11 @@ impl CapTok {
                         schemes.extend(v.split(',').map(hexs));
                     }
                 }
-                return if schemes.is_empty() { "url:.".into() } else { format!("url:{}", schemes.join("+")) };
+                return if schemes.is_empty() {
+                    "url:.".into()
+                } else {
+                    format!("url:{}", schemes.join("+"))
+                };
             }
         }
         "unk".into()
@@ -194,7 +217,10 @@ fn toks_of(mask: u32, urlq: usize, extra: &[CapTok]) -> Vec<CapTok> {
 /// `</capability>` as `memtransport::hello` writes it (character references unresolved), without
 /// surrounding whitespace (capabilities.rs `span.trim()`)
 fn xml_span(uri: &str) -> String {
-    uri.replace('&', "&amp;").replace('<', "&lt;").trim().to_string()
+    uri.replace('&', "&amp;")
+        .replace('<', "&lt;")
+        .trim()
+        .to_string()
 }
 
 fn opt_hex(s: Option<&str>) -> String {
@@ -209,7 +235,9 @@ fn opt_hex(s: Option<&str>) -> String {
 fn annotate(uri: &str) -> String {
     let raw = xml_span(uri);
     let ann = annotate1(&raw);
-    let query = UriStr::new(raw.as_str()).ok().and_then(|u| u.query_str().map(|q| q.to_string()));
+    let query = UriStr::new(raw.as_str())
+        .ok()
+        .and_then(|u| u.query_str().map(|q| q.to_string()));
     match query {
         Some(q) => match quick_xml::escape::unescape(&q) {
             Ok(u) if u == q => ann,
@@ -410,7 +438,13 @@ impl Call {
 
     fn parse(op: &str, t: &str) -> Option<Call> {
         let hex_str = |h: &str| unhex(h).and_then(|b| String::from_utf8(b).ok());
-        let opt_str = |h: &str| if h == "~" { Some(None) } else { hex_str(h).map(Some) };
+        let opt_str = |h: &str| {
+            if h == "~" {
+                Some(None)
+            } else {
+                hex_str(h).map(Some)
+            }
+        };
         let b01 = |s: &str| match s {
             "0" => Some(false),
             "1" => Some(true),
@@ -501,7 +535,10 @@ impl Case {
         let calls = if calls == "." {
             vec![]
         } else {
-            calls.split(',').map(|t| Call::parse(op, t)).collect::<Option<Vec<_>>>()?
+            calls
+                .split(',')
+                .map(|t| Call::parse(op, t))
+                .collect::<Option<Vec<_>>>()?
         };
         Some(Case { op, calls })
     }
@@ -528,7 +565,12 @@ fn err_kind(e: &Error) -> String {
         Error::KillCurrentSession => "kill-current-session".into(),
         other => {
             let d = format!("{other:?}");
-            format!("other:{}", d.split(|c: char| !c.is_alphanumeric()).next().unwrap_or("?"))
+            format!(
+                "other:{}",
+                d.split(|c: char| !c.is_alphanumeric())
+                    .next()
+                    .unwrap_or("?")
+            )
         }
     }
 }
@@ -751,18 +793,42 @@ async fn run_real(session: &mut Session, case: &Case) -> Result<(), Error> {
             let xml = || Opaque::from("<configuration/>");
             match kind {
                 ("rescue", _) => load_with!(session, calls, Rescue, Rescue),
-                ("xml", "merge") => load_with!(session, calls, Config<Opaque, Xml, Merge>, Config::new(xml(), Xml, Merge)),
-                ("xml", "override") => load_with!(session, calls, Config<Opaque, Xml, Override>, Config::new(xml(), Xml, Override)),
-                ("xml", "update") => load_with!(session, calls, Config<Opaque, Xml, Update>, Config::new(xml(), Xml, Update)),
-                ("xml", "replace") => load_with!(session, calls, Config<Opaque, Xml, Replace>, Config::new(xml(), Xml, Replace)),
-                ("text", "merge") => load_with!(session, calls, Config<&str, Text, Merge>, Config::new("system { }", Text, Merge)),
-                ("text", "override") => load_with!(session, calls, Config<&str, Text, Override>, Config::new("system { }", Text, Override)),
-                ("text", "update") => load_with!(session, calls, Config<&str, Text, Update>, Config::new("system { }", Text, Update)),
-                ("text", "replace") => load_with!(session, calls, Config<&str, Text, Replace>, Config::new("system { }", Text, Replace)),
-                ("text", "set") => load_with!(session, calls, Config<&str, Text, Set>, Config::new("set system", Text, Set)),
-                ("json", "merge") => load_with!(session, calls, Config<&str, Json, Merge>, Config::new("{}", Json, Merge)),
-                ("json", "override") => load_with!(session, calls, Config<&str, Json, Override>, Config::new("{}", Json, Override)),
-                ("json", "update") => load_with!(session, calls, Config<&str, Json, Update>, Config::new("{}", Json, Update)),
+                ("xml", "merge") => {
+                    load_with!(session, calls, Config<Opaque, Xml, Merge>, Config::new(xml(), Xml, Merge))
+                }
+                ("xml", "override") => {
+                    load_with!(session, calls, Config<Opaque, Xml, Override>, Config::new(xml(), Xml, Override))
+                }
+                ("xml", "update") => {
+                    load_with!(session, calls, Config<Opaque, Xml, Update>, Config::new(xml(), Xml, Update))
+                }
+                ("xml", "replace") => {
+                    load_with!(session, calls, Config<Opaque, Xml, Replace>, Config::new(xml(), Xml, Replace))
+                }
+                ("text", "merge") => {
+                    load_with!(session, calls, Config<&str, Text, Merge>, Config::new("system { }", Text, Merge))
+                }
+                ("text", "override") => {
+                    load_with!(session, calls, Config<&str, Text, Override>, Config::new("system { }", Text, Override))
+                }
+                ("text", "update") => {
+                    load_with!(session, calls, Config<&str, Text, Update>, Config::new("system { }", Text, Update))
+                }
+                ("text", "replace") => {
+                    load_with!(session, calls, Config<&str, Text, Replace>, Config::new("system { }", Text, Replace))
+                }
+                ("text", "set") => {
+                    load_with!(session, calls, Config<&str, Text, Set>, Config::new("set system", Text, Set))
+                }
+                ("json", "merge") => {
+                    load_with!(session, calls, Config<&str, Json, Merge>, Config::new("{}", Json, Merge))
+                }
+                ("json", "override") => {
+                    load_with!(session, calls, Config<&str, Json, Override>, Config::new("{}", Json, Override))
+                }
+                ("json", "update") => {
+                    load_with!(session, calls, Config<&str, Json, Update>, Config::new("{}", Json, Update))
+                }
                 other => panic!("harness: no such load-configuration source {other:?}"),
             }
         }
@@ -773,7 +839,10 @@ async fn run_real(session: &mut Session, case: &Case) -> Result<(), Error> {
                     Call::Now => b.now(),
                     Call::AtReboot => b.at_reboot(),
                     Call::TodayAt => b.today_at(chrono::NaiveTime::from_hms_opt(3, 4, 5).unwrap()),
-                    Call::At => b.at(chrono::NaiveDate::from_ymd_opt(2030, 1, 2).unwrap().and_hms_opt(3, 4, 5).unwrap()),
+                    Call::At => b.at(chrono::NaiveDate::from_ymd_opt(2030, 1, 2)
+                        .unwrap()
+                        .and_hms_opt(3, 4, 5)
+                        .unwrap()),
                     Call::Confirmed(v) => b.confirmed(*v),
                     Call::ConfirmedTimeout(n) => b.confirmed_with_timeout(Duration::from_secs(*n)),
                     Call::Log(m) => b.with_log_message(m),
@@ -802,7 +871,10 @@ impl Node {
         self.children.iter().find(|c| c.name == n)
     }
     fn attr(&self, n: &str) -> Option<&str> {
-        self.attrs.iter().find(|(k, _)| k == n).map(|(_, v)| v.as_str())
+        self.attrs
+            .iter()
+            .find(|(k, _)| k == n)
+            .map(|(_, v)| v.as_str())
     }
 }
 
@@ -813,7 +885,10 @@ fn parse_xml(bytes: &[u8]) -> Option<Node> {
     let mut reader = quick_xml::Reader::from_str(s);
     let mut stack: Vec<Node> = vec![Node::default()];
     let start = |e: &quick_xml::events::BytesStart<'_>| -> Option<Node> {
-        let mut n = Node { name: String::from_utf8(e.local_name().as_ref().to_vec()).ok()?, ..Default::default() };
+        let mut n = Node {
+            name: String::from_utf8(e.local_name().as_ref().to_vec()).ok()?,
+            ..Default::default()
+        };
         for a in e.attributes() {
             let a = a.ok()?;
             n.attrs.push((
@@ -902,10 +977,24 @@ fn canon_op(o: &Node) -> Option<String> {
     Some(match o.name.as_str() {
         "get" if known_children(o, &["filter"]) => format!("get;filter={}", filter_tok(o)?),
         "get-config" if known_children(o, &["source", "filter"]) => {
-            format!("get-config;source={};filter={}", endpoint(o.child("source")?)?, filter_tok(o)?)
+            format!(
+                "get-config;source={};filter={}",
+                endpoint(o.child("source")?)?,
+                filter_tok(o)?
+            )
         }
         "edit-config"
-            if known_children(o, &["target", "default-operation", "error-option", "test-option", "config", "url"]) =>
+            if known_children(
+                o,
+                &[
+                    "target",
+                    "default-operation",
+                    "error-option",
+                    "test-option",
+                    "config",
+                    "url",
+                ],
+            ) =>
         {
             let content = match (o.child("config"), o.child("url")) {
                 (Some(_), None) => "config".to_string(),
@@ -922,7 +1011,11 @@ fn canon_op(o: &Node) -> Option<String> {
             )
         }
         "copy-config" if known_children(o, &["target", "source"]) => {
-            format!("copy-config;target={};source={}", endpoint(o.child("target")?)?, endpoint(o.child("source")?)?)
+            format!(
+                "copy-config;target={};source={}",
+                endpoint(o.child("target")?)?,
+                endpoint(o.child("source")?)?
+            )
         }
         "delete-config" | "lock" | "unlock" if known_children(o, &["target"]) => {
             format!("{};target={}", o.name, endpoint(o.child("target")?)?)
@@ -930,18 +1023,31 @@ fn canon_op(o: &Node) -> Option<String> {
         "kill-session" if known_children(o, &["session-id"]) => {
             format!("kill-session;session-id={}", o.child("session-id")?.text)
         }
-        "commit" if known_children(o, &["confirmed", "confirm-timeout", "persist", "persist-id"]) => format!(
-            "commit;confirmed={};confirm-timeout={};persist={};persist-id={}",
-            flag("confirmed"),
-            opt_text(o, "confirm-timeout"),
-            opt_text_hex(o, "persist"),
-            opt_text_hex(o, "persist-id")
-        ),
+        "commit"
+            if known_children(
+                o,
+                &["confirmed", "confirm-timeout", "persist", "persist-id"],
+            ) =>
+        {
+            format!(
+                "commit;confirmed={};confirm-timeout={};persist={};persist-id={}",
+                flag("confirmed"),
+                opt_text(o, "confirm-timeout"),
+                opt_text_hex(o, "persist"),
+                opt_text_hex(o, "persist-id")
+            )
+        }
         "cancel-commit" if known_children(o, &["persist-id"]) => {
             format!("cancel-commit;persist-id={}", opt_text_hex(o, "persist-id"))
         }
-        "validate" if known_children(o, &["source"]) => format!("validate;source={}", endpoint(o.child("source")?)?),
-        "discard-changes" | "close-session" | "close-configuration" | "lock-configuration" | "unlock-configuration"
+        "validate" if known_children(o, &["source"]) => {
+            format!("validate;source={}", endpoint(o.child("source")?)?)
+        }
+        "discard-changes"
+        | "close-session"
+        | "close-configuration"
+        | "lock-configuration"
+        | "unlock-configuration"
             if o.children.is_empty() && o.attrs.is_empty() =>
         {
             o.name.clone()
@@ -951,7 +1057,9 @@ fn canon_op(o: &Node) -> Option<String> {
             match c.name.as_str() {
                 "private" => "open-configuration;target=private".into(),
                 "ephemeral" => "open-configuration;target=ephemeral".into(),
-                "ephemeral-instance" => format!("open-configuration;target=instance:{}", hexs(&c.text)),
+                "ephemeral-instance" => {
+                    format!("open-configuration;target=instance:{}", hexs(&c.text))
+                }
                 _ => return None,
             }
         }
@@ -959,7 +1067,11 @@ fn canon_op(o: &Node) -> Option<String> {
             if o.attr("rescue").is_some() && o.attrs.len() == 1 && o.children.is_empty() {
                 "load-configuration;source=rescue".into()
             } else if o.attrs.len() == 2 && o.children.len() == 1 {
-                format!("load-configuration;source=config:{}:{}", o.attr("format")?, o.attr("action")?)
+                format!(
+                    "load-configuration;source=config:{}:{}",
+                    o.attr("format")?,
+                    o.attr("action")?
+                )
             } else {
                 "load-configuration;source=other".into()
             }
@@ -967,7 +1079,15 @@ fn canon_op(o: &Node) -> Option<String> {
         "commit-configuration"
             if known_children(
                 o,
-                &["check", "at-time", "confirmed", "confirm-timeout", "log", "synchronize", "force-synchronize"],
+                &[
+                    "check",
+                    "at-time",
+                    "confirmed",
+                    "confirm-timeout",
+                    "log",
+                    "synchronize",
+                    "force-synchronize",
+                ],
             ) =>
         {
             let at = match o.child("at-time") {
@@ -1017,10 +1137,21 @@ fn cases_for_all(rng: &mut Rng, thorough: bool) -> Vec<Case> {
     for f in filters {
         v.push(Case::new("get", vec![Call::Filter(f)]));
     }
-    v.push(Case::new("get", vec![Call::Filter(Some(true)), Call::Filter(None)]));
-    v.push(Case::new("get", vec![Call::Filter(Some(false)), Call::Filter(Some(true))]));
+    v.push(Case::new(
+        "get",
+        vec![Call::Filter(Some(true)), Call::Filter(None)],
+    ));
+    v.push(Case::new(
+        "get",
+        vec![Call::Filter(Some(false)), Call::Filter(Some(true))],
+    ));
     // get-config: source × filter, both orders
-    for s in [None, Some(Ds::Running), Some(Ds::Candidate), Some(Ds::Startup)] {
+    for s in [
+        None,
+        Some(Ds::Running),
+        Some(Ds::Candidate),
+        Some(Ds::Startup),
+    ] {
         for f in [None, Some(None), Some(Some(false)), Some(Some(true))] {
             let mut calls = vec![];
             if let Some(d) = s {
@@ -1037,19 +1168,40 @@ fn cases_for_all(rng: &mut Rng, thorough: bool) -> Vec<Case> {
             v.push(Case::new("get-config", calls));
         }
     }
-    v.push(Case::new("get-config", vec![Call::Source(Ds::Candidate), Call::Source(Ds::Running)]));
-    v.push(Case::new("get-config", vec![Call::Source(Ds::Running), Call::Filter(Some(true)), Call::Filter(None)]));
+    v.push(Case::new(
+        "get-config",
+        vec![Call::Source(Ds::Candidate), Call::Source(Ds::Running)],
+    ));
+    v.push(Case::new(
+        "get-config",
+        vec![
+            Call::Source(Ds::Running),
+            Call::Filter(Some(true)),
+            Call::Filter(None),
+        ],
+    ));
     // edit-config
-    let targets = [None, Some(Ds::Running), Some(Ds::Candidate), Some(Ds::Startup)];
+    let targets = [
+        None,
+        Some(Ds::Running),
+        Some(Ds::Candidate),
+        Some(Ds::Startup),
+    ];
     let contents: Vec<Option<Call>> = std::iter::once(None)
         .chain(std::iter::once(Some(Call::Config)))
         .chain(URLS.iter().map(|u| Some(Call::Url((*u).to_string()))))
         .collect();
     let opt3 = |l: &[&'static str; 3]| -> Vec<Option<&'static str>> {
-        std::iter::once(None).chain(l.iter().copied().map(Some)).collect()
+        std::iter::once(None)
+            .chain(l.iter().copied().map(Some))
+            .collect()
     };
     let (defops, erropts, testopts) = (opt3(&DEFOPS), opt3(&ERROPTS), opt3(&TESTOPTS));
-    let edit = |t: Option<Ds>, c: &Option<Call>, d: Option<&'static str>, e: Option<&'static str>, to: Option<&'static str>| {
+    let edit = |t: Option<Ds>,
+                c: &Option<Call>,
+                d: Option<&'static str>,
+                e: Option<&'static str>,
+                to: Option<&'static str>| {
         let mut calls = vec![];
         if let Some(t) = t {
             calls.push(Call::Target(t));
@@ -1094,7 +1246,13 @@ fn cases_for_all(rng: &mut Rng, thorough: bool) -> Vec<Case> {
             }
         }
         for d in &defops {
-            v.push(edit(Some(Ds::Candidate), &Some(Call::Config), *d, None, None));
+            v.push(edit(
+                Some(Ds::Candidate),
+                &Some(Call::Config),
+                *d,
+                None,
+                None,
+            ));
         }
     }
     // random full combinations, calls shuffled (the first failing call decides the error)
@@ -1114,7 +1272,13 @@ fn cases_for_all(rng: &mut Rng, thorough: bool) -> Vec<Case> {
     }
     // copy-config
     for t in targets {
-        for s in [None, Some(Call::Source(Ds::Running)), Some(Call::Source(Ds::Candidate)), Some(Call::Source(Ds::Startup)), Some(Call::Config)] {
+        for s in [
+            None,
+            Some(Call::Source(Ds::Running)),
+            Some(Call::Source(Ds::Candidate)),
+            Some(Call::Source(Ds::Startup)),
+            Some(Call::Config),
+        ] {
             let mut calls = vec![];
             if let Some(t) = t {
                 calls.push(Call::Target(t));
@@ -1130,7 +1294,15 @@ fn cases_for_all(rng: &mut Rng, thorough: bool) -> Vec<Case> {
             v.push(Case::new("copy-config", calls));
         }
     }
-    v.push(Case::new("copy-config", vec![Call::Target(Ds::Startup), Call::Config, Call::Source(Ds::Candidate), Call::Target(Ds::Running)]));
+    v.push(Case::new(
+        "copy-config",
+        vec![
+            Call::Target(Ds::Startup),
+            Call::Config,
+            Call::Source(Ds::Candidate),
+            Call::Target(Ds::Running),
+        ],
+    ));
     // delete-config
     v.push(Case::new("delete-config", vec![]));
     for d in Ds::ALL {
@@ -1139,17 +1311,32 @@ fn cases_for_all(rng: &mut Rng, thorough: bool) -> Vec<Case> {
     for u in URLS {
         v.push(Case::new("delete-config", vec![Call::Url(u.to_string())]));
     }
-    v.push(Case::new("delete-config", vec![Call::Target(Ds::Startup), Call::Url(URLS[0].to_string())]));
-    v.push(Case::new("delete-config", vec![Call::Url(URLS[1].to_string()), Call::Target(Ds::Candidate)]));
-    v.push(Case::new("delete-config", vec![Call::Url(URLS[1].to_string()), Call::Target(Ds::Running)]));
+    v.push(Case::new(
+        "delete-config",
+        vec![Call::Target(Ds::Startup), Call::Url(URLS[0].to_string())],
+    ));
+    v.push(Case::new(
+        "delete-config",
+        vec![Call::Url(URLS[1].to_string()), Call::Target(Ds::Candidate)],
+    ));
+    v.push(Case::new(
+        "delete-config",
+        vec![Call::Url(URLS[1].to_string()), Call::Target(Ds::Running)],
+    ));
     // lock / unlock
     for op in ["lock", "unlock"] {
         v.push(Case::new(op, vec![]));
         for d in Ds::ALL {
             v.push(Case::new(op, vec![Call::Target(d)]));
         }
-        v.push(Case::new(op, vec![Call::Target(Ds::Candidate), Call::Target(Ds::Running)]));
-        v.push(Case::new(op, vec![Call::Target(Ds::Running), Call::Target(Ds::Startup)]));
+        v.push(Case::new(
+            op,
+            vec![Call::Target(Ds::Candidate), Call::Target(Ds::Running)],
+        ));
+        v.push(Case::new(
+            op,
+            vec![Call::Target(Ds::Running), Call::Target(Ds::Startup)],
+        ));
     }
     // kill-session
     v.push(Case::new("kill-session", vec![]));
@@ -1182,13 +1369,34 @@ fn cases_for_all(rng: &mut Rng, thorough: bool) -> Vec<Case> {
             }
         }
     }
-    v.push(Case::new("commit", vec![Call::PersistId(Some("a".into())), Call::Confirmed(true), Call::PersistId(None)]));
-    v.push(Case::new("commit", vec![Call::Confirmed(true), Call::Persist(Some("a".into())), Call::Confirmed(false), Call::Persist(None)]));
+    v.push(Case::new(
+        "commit",
+        vec![
+            Call::PersistId(Some("a".into())),
+            Call::Confirmed(true),
+            Call::PersistId(None),
+        ],
+    ));
+    v.push(Case::new(
+        "commit",
+        vec![
+            Call::Confirmed(true),
+            Call::Persist(Some("a".into())),
+            Call::Confirmed(false),
+            Call::Persist(None),
+        ],
+    ));
     // cancel-commit
     v.push(Case::new("cancel-commit", vec![]));
-    v.push(Case::new("cancel-commit", vec![Call::PersistId(Some("tok-1".into()))]));
+    v.push(Case::new(
+        "cancel-commit",
+        vec![Call::PersistId(Some("tok-1".into()))],
+    ));
     v.push(Case::new("cancel-commit", vec![Call::PersistId(None)]));
-    v.push(Case::new("cancel-commit", vec![Call::PersistId(Some("a".into())), Call::PersistId(None)]));
+    v.push(Case::new(
+        "cancel-commit",
+        vec![Call::PersistId(Some("a".into())), Call::PersistId(None)],
+    ));
     v.push(Case::new("discard-changes", vec![]));
     // validate
     v.push(Case::new("validate", vec![]));
@@ -1196,23 +1404,51 @@ fn cases_for_all(rng: &mut Rng, thorough: bool) -> Vec<Case> {
         v.push(Case::new("validate", vec![Call::Source(d)]));
     }
     v.push(Case::new("validate", vec![Call::Config]));
-    v.push(Case::new("validate", vec![Call::Config, Call::Source(Ds::Candidate)]));
-    v.push(Case::new("validate", vec![Call::Source(Ds::Startup), Call::Config]));
+    v.push(Case::new(
+        "validate",
+        vec![Call::Config, Call::Source(Ds::Candidate)],
+    ));
+    v.push(Case::new(
+        "validate",
+        vec![Call::Source(Ds::Startup), Call::Config],
+    ));
     // Junos
-    for op in ["close-configuration", "lock-configuration", "unlock-configuration"] {
+    for op in [
+        "close-configuration",
+        "lock-configuration",
+        "unlock-configuration",
+    ] {
         v.push(Case::new(op, vec![]));
     }
     v.push(Case::new("open-configuration", vec![]));
     v.push(Case::new("open-configuration", vec![Call::Private]));
     v.push(Case::new("open-configuration", vec![Call::Ephemeral(None)]));
-    v.push(Case::new("open-configuration", vec![Call::Ephemeral(Some("inst-1".into()))]));
-    v.push(Case::new("open-configuration", vec![Call::Private, Call::Ephemeral(Some("x".into()))]));
-    v.push(Case::new("open-configuration", vec![Call::Ephemeral(None), Call::Private]));
+    v.push(Case::new(
+        "open-configuration",
+        vec![Call::Ephemeral(Some("inst-1".into()))],
+    ));
+    v.push(Case::new(
+        "open-configuration",
+        vec![Call::Private, Call::Ephemeral(Some("x".into()))],
+    ));
+    v.push(Case::new(
+        "open-configuration",
+        vec![Call::Ephemeral(None), Call::Private],
+    ));
     v.push(Case::new("load-configuration", vec![]));
     for (f, a) in LOADS {
-        v.push(Case::new("load-configuration", vec![Call::LoadSource(f, a)]));
+        v.push(Case::new(
+            "load-configuration",
+            vec![Call::LoadSource(f, a)],
+        ));
     }
-    v.push(Case::new("load-configuration", vec![Call::LoadSource("text", "set"), Call::LoadSource("text", "set")]));
+    v.push(Case::new(
+        "load-configuration",
+        vec![
+            Call::LoadSource("text", "set"),
+            Call::LoadSource("text", "set"),
+        ],
+    ));
     let cc = |calls: Vec<Call>| Case::new("commit-configuration", calls);
     v.push(cc(vec![]));
     v.push(cc(vec![Call::Check(true)]));
@@ -1230,7 +1466,13 @@ fn cases_for_all(rng: &mut Rng, thorough: bool) -> Vec<Case> {
     v.push(cc(vec![Call::Log("a <b> & c".into())]));
     v.push(cc(vec![Call::Sync(false)]));
     v.push(cc(vec![Call::Sync(true)]));
-    v.push(cc(vec![Call::Check(true), Call::AtReboot, Call::ConfirmedTimeout(3600), Call::Log("m".into()), Call::Sync(true)]));
+    v.push(cc(vec![
+        Call::Check(true),
+        Call::AtReboot,
+        Call::ConfirmedTimeout(3600),
+        Call::Log("m".into()),
+        Call::Sync(true),
+    ]));
     v
 }
 
@@ -1243,7 +1485,10 @@ fn core_cases(all: &[Case]) -> Vec<Case> {
                 || (c.calls.len() == 2
                     && match c.op {
                         "get-config" => matches!(c.calls[0], Call::Source(_)),
-                        "edit-config" => matches!(c.calls[0], Call::Target(_)) && matches!(c.calls[1], Call::Config | Call::Url(_)),
+                        "edit-config" => {
+                            matches!(c.calls[0], Call::Target(_))
+                                && matches!(c.calls[1], Call::Config | Call::Url(_))
+                        }
                         "copy-config" => matches!(c.calls[0], Call::Target(_)),
                         "commit" => matches!(c.calls[0], Call::Confirmed(true)),
                         _ => false,
@@ -1321,7 +1566,11 @@ fn gen_capsets(opts: &Opts, rng: &mut Rng) -> Vec<CapSet> {
     let all_noise: Vec<CapTok> = (0..NOISE.len()).map(CapTok::Noise).collect();
     push(&mut sets, toks_of((1 << n) - 1, 1, &all_noise), false);
     for i in 0..INVALID.len() {
-        push(&mut sets, toks_of((1 << n) - 1, 1, &[CapTok::Invalid(i)]), false);
+        push(
+            &mut sets,
+            toks_of((1 << n) - 1, 1, &[CapTok::Invalid(i)]),
+            false,
+        );
     }
     // (E) thorough: all 2^13 subsets (reduced case list)
     if opts.thorough() {
@@ -1368,7 +1617,10 @@ struct Ctx<'a> {
 
 fn run_job(job: Job) -> Sink {
     let mut sink = Sink::new();
-    let rt = tokio::runtime::Builder::new_current_thread().enable_all().build().unwrap();
+    let rt = tokio::runtime::Builder::new_current_thread()
+        .enable_all()
+        .build()
+        .unwrap();
     let cd = capset_descr(&job.toks);
     let uris: Vec<String> = job.toks.iter().map(|t| t.uri()).collect();
     let annotated = list(&uris.iter().map(|u| annotate(u)).collect::<Vec<_>>());
@@ -1380,21 +1632,43 @@ fn run_job(job: Job) -> Sink {
             Err(e) => {
                 // no session: nothing can be sent. The model must agree when the cause is a
                 // capability that is not a URI; a missing common base version is C12's business.
-                let all_valid = uris.iter().all(|u| UriStr::new(xml_span(u).as_str()).is_ok());
+                let all_valid = uris
+                    .iter()
+                    .all(|u| UriStr::new(xml_span(u).as_str()).is_ok());
                 if !all_valid {
-                    sink.corr(&case0, format!("build caps {} {annotated}", job.cfg), "nosession".into());
+                    sink.corr(
+                        &case0,
+                        format!("build caps {} {annotated}", job.cfg),
+                        "nosession".into(),
+                    );
                     sink.count("session.rejected-invalid-capability");
                 } else {
                     sink.count(&format!("session.none.{}", err_kind(&e)));
                 }
-                sink.direct(&case0, if peer.sent_count() <= 1 { "ok".into() } else { "violation sent-without-session".into() });
+                sink.direct(
+                    &case0,
+                    if peer.sent_count() <= 1 {
+                        "ok".into()
+                    } else {
+                        "violation sent-without-session".into()
+                    },
+                );
                 return;
             }
         };
         sink.count("session.established");
         let caps_v = caps_tokens(&session);
-        let mut ctx = Ctx { cfg: &job.cfg, caps: list(&caps_v), adv: advertised(&job.toks), errors_checked: 0 };
-        sink.corr(&case0, format!("build caps {} {annotated}", job.cfg), format!("caps={}", ctx.caps));
+        let mut ctx = Ctx {
+            cfg: &job.cfg,
+            caps: list(&caps_v),
+            adv: advertised(&job.toks),
+            errors_checked: 0,
+        };
+        sink.corr(
+            &case0,
+            format!("build caps {} {annotated}", job.cfg),
+            format!("caps={}", ctx.caps),
+        );
         // independent oracle on the hello reader: the context holds what the server advertised
         if ctx.caps == ctx.adv {
             sink.direct(&case0, "ok".into());
@@ -1407,17 +1681,36 @@ fn run_job(job: Job) -> Sink {
         for case in &job.cases {
             let d = format!("{cd}|{}|{}", case.op, case.calls_tok(false));
             let before = peer.sent_count();
-            let outcome = AssertUnwindSafe(run_real(&mut session, case)).catch_unwind().await;
+            let outcome = AssertUnwindSafe(run_real(&mut session, case))
+                .catch_unwind()
+                .await;
             let sent = peer.sent();
-            record(&mut sink, &mut ctx, &d, case, outcome, &sent[before.min(sent.len())..]);
+            record(
+                &mut sink,
+                &mut ctx,
+                &d,
+                case,
+                outcome,
+                &sent[before.min(sent.len())..],
+            );
         }
         // `Session::close` (the only way to issue close-session) consumes the session: last
         let case = Case::new("close-session", vec![]);
         let d = format!("{cd}|close-session|.");
         let before = peer.sent_count();
-        let outcome = AssertUnwindSafe(async move { session.close().await.map(|_reply_future| ()) }).catch_unwind().await;
+        let outcome =
+            AssertUnwindSafe(async move { session.close().await.map(|_reply_future| ()) })
+                .catch_unwind()
+                .await;
         let sent = peer.sent();
-        record(&mut sink, &mut ctx, &d, &case, outcome, &sent[before.min(sent.len())..]);
+        record(
+            &mut sink,
+            &mut ctx,
+            &d,
+            &case,
+            outcome,
+            &sent[before.min(sent.len())..],
+        );
         // every local failure left the transport untouched (violations were reported per case)
         sink.direct(&format!("{cd}|*|."), "ok".into());
         sink.add("errors_with_wire_untouched", ctx.errors_checked);
@@ -1434,11 +1727,18 @@ fn record(
     new_msgs: &[bytes::Bytes],
 ) {
     let calls = case.calls_tok(true);
-    let model_line = format!("build op {} {SESSION_ID} {} {} {calls}", ctx.cfg, ctx.caps, case.op);
+    let model_line = format!(
+        "build op {} {SESSION_ID} {} {} {calls}",
+        ctx.cfg, ctx.caps, case.op
+    );
     sink.count(&format!("op.{}", case.op));
     let (obs, spec_outcome) = match outcome {
         Err(p) => {
-            let msg = p.downcast_ref::<String>().cloned().or_else(|| p.downcast_ref::<&str>().map(|s| s.to_string())).unwrap_or_default();
+            let msg = p
+                .downcast_ref::<String>()
+                .cloned()
+                .or_else(|| p.downcast_ref::<&str>().map(|s| s.to_string()))
+                .unwrap_or_default();
             sink.direct(d, "violation panic".into());
             sink.notes.push(format!("panic in {d}: {msg}"));
             ("panic".to_string(), None)
@@ -1461,7 +1761,10 @@ fn record(
                 (format!("err {k}"), Some(format!("err:{k}")))
             } else {
                 sink.direct(d, "violation sent-on-error".into());
-                (format!("err {k} +sent"), Some(format!("sent:{}", canon_wire(&new_msgs[0]))))
+                (
+                    format!("err {k} +sent"),
+                    Some(format!("sent:{}", canon_wire(&new_msgs[0]))),
+                )
             }
         }
     };
@@ -1469,7 +1772,13 @@ fn record(
     sink.corr(d, model_line, obs);
     if let Some(o) = spec_outcome {
         // the RFC table is evaluated against what the server advertised
-        sink.spec(d, format!("build spec {SESSION_ID} {} {} {calls} {o}", ctx.adv, case.op));
+        sink.spec(
+            d,
+            format!(
+                "build spec {SESSION_ID} {} {} {calls} {o}",
+                ctx.adv, case.op
+            ),
+        );
     }
 }
 
@@ -1487,30 +1796,51 @@ pub fn main(opts: &Opts) {
         // group the replayed cases by capability set
         let mut groups: Vec<(Vec<CapTok>, Vec<Case>)> = vec![];
         for l in std::fs::read_to_string(p).unwrap().lines() {
-            let Some(d) = l.strip_prefix("case\t") else { continue };
+            let Some(d) = l.strip_prefix("case\t") else {
+                continue;
+            };
             let d = d.split('\t').next().unwrap();
             let parts: Vec<&str> = d.split('|').collect();
             if parts.len() != 3 {
                 continue;
             }
-            let toks: Option<Vec<CapTok>> =
-                if parts[0] == "." { Some(vec![]) } else { parts[0].split(',').map(CapTok::parse).collect() };
+            let toks: Option<Vec<CapTok>> = if parts[0] == "." {
+                Some(vec![])
+            } else {
+                parts[0].split(',').map(CapTok::parse).collect()
+            };
             let Some(toks) = toks else { continue };
             // `-` / `*` are the capability-set rows, close-session is issued for every set anyway
-            let case = if matches!(parts[1], "-" | "*" | "close-session") { None } else { Case::parse(parts[1], parts[2]) };
+            let case = if matches!(parts[1], "-" | "*" | "close-session") {
+                None
+            } else {
+                Case::parse(parts[1], parts[2])
+            };
             match groups.iter_mut().find(|(u, _)| *u == toks) {
                 Some((_, cs)) => cs.extend(case),
                 None => groups.push((toks, case.into_iter().collect())),
             }
         }
         for (toks, cases) in groups {
-            jobs.push(Job { toks, cases, cfg: cfg.clone() });
+            jobs.push(Job {
+                toks,
+                cases,
+                cfg: cfg.clone(),
+            });
         }
     } else {
         let all = cases_for_all(&mut rng, opts.thorough());
         let core = core_cases(&all);
         for cs in gen_capsets(opts, &mut rng) {
-            jobs.push(Job { toks: cs.toks, cases: if cs.core_only { core.clone() } else { all.clone() }, cfg: cfg.clone() });
+            jobs.push(Job {
+                toks: cs.toks,
+                cases: if cs.core_only {
+                    core.clone()
+                } else {
+                    all.clone()
+                },
+                cfg: cfg.clone(),
+            });
         }
         sink.add("cases_per_set.full", all.len() as u64 + 1);
         sink.add("cases_per_set.core", core.len() as u64 + 1);
